@@ -644,11 +644,11 @@ def run(ctx: Ctx) -> None:
 
     # ---- 1. model checking + enumeration: one exhaustive run (histories hidden by the VIEW) -------
     g = expect_clean(run_tlc("seq/RemoteJob_Gen.tla",
-                             gen_cfg(3, ctx.pick(2, 3), ("proto", "name", "reunite"), ctx.pick(1, 2)),
+                             gen_cfg(ctx.pick(3, 4), ctx.pick(2, 3), ("proto", "name", "reunite"), ctx.pick(1, 2)),
                              ctx.scratch, workers=ctx.pick(8, "auto"), env=JVM_LONG, timeout=2400),
                      "RemoteJob_Gen (protocol, names, reunite)")
     ctx.add_tlc(g)
-    ctx.note("model_config", f"groups of <= 3 jobs, {ctx.pick(1, 2)} container(s) per job exhaustively (2 in the "
+    ctx.note("model_config", f"groups of <= {ctx.pick(3, 4)} jobs, {ctx.pick(1, 2)} container(s) per job exhaustively (2 in the "
              "simulated behaviours), prefixes of <= %d segments over "
              "{'', p, q, array}, <= 2 in-flight remote jobs" % ctx.pick(2, 3))
     pcases, ncases, rcases = g.recs("CASE"), g.recs("NAME"), g.recs("REUNITE")
@@ -677,8 +677,8 @@ def run(ctx: Ctx) -> None:
     ctx.sample({"source": "tlc-exhaustive case", "case": pcases[len(pcases) // 2]})
 
     # ---- 3. spec -> code: simulated behaviours, event by event ---------------------------------
-    nsim = ctx.pick(150, 2500)
-    s = run_tlc("seq/RemoteJob_Gen.tla", gen_cfg(3, 1, ("proto",), 2, emit="Emit", view=False, sim=True,
+    nsim = ctx.pick(150, 4000)
+    s = run_tlc("seq/RemoteJob_Gen.tla", gen_cfg(ctx.pick(3, 4), 1, ("proto",), 2, emit="Emit", view=False, sim=True,
                                                   invs=("GOutcomeOK",), props=()),
                 ctx.scratch, workers=1, simulate=f"num={nsim}", depth=16, seed=ctx.seed + 1, env=JVM_SHORT, timeout=1200)
     ctx.require(s.error is None and not s.violated, f"simulation failed: {s.error} {s.violated}\n{s.out[-1500:]}")
@@ -705,7 +705,7 @@ def run(ctx: Ctx) -> None:
 
     # ---- 5. code -> spec: larger recorded executions ---------------------------------------------
     traces, groups = [], []
-    for _ in range(ctx.pick(60, 600)):
+    for _ in range(ctx.pick(60, 1500)):
         n = rng.randint(1, 12)
         array = n >= 2 and rng.random() < 0.75
         beh = [rng.choice(["ok", "ok", "ok", "raise", "unp"]) for _ in range(n)]
